@@ -88,7 +88,15 @@ func (rl *Shell) Readline() (string, error) {
 		// Block and wait for available user input keys.
 		// These might be read on stdin, or already available because
 		// the macro engine has fed some keys in bulk when running one.
-		core.WaitAvailableKeys(rl.Keys, rl.Config)
+		if err := core.WaitAvailableKeys(rl.Keys, rl.Config); err != nil {
+			// No more input can be read (end of file, terminal error):
+			// hand back what we have instead of polling the terminal.
+			rl.Display.AcceptLine()
+			rl.History.Accept(false, false, err)
+			_, line, err := rl.History.LineAccepted()
+
+			return line, err
+		}
 
 		// 1 - Local keymap (Completion/Isearch/Vim operator pending).
 		bind, command, prefixed := keymap.MatchLocal(rl.Keymap)
